@@ -104,13 +104,21 @@ def get_field_reader(
     match field_class:
         case PrimitiveField():
             # A tagged field is usually omitted when null, but a peer may also send it
-            # with an explicit null payload, so nullable fields always use the nullable
-            # reader.
-            inner_type_reader = get_reader(
-                kafka_type=get_schema_field_type(field),
-                flexible=flexible,
-                optional=is_optional(field),
-            )
+            # with an explicit null payload, so nullable tagged fields use the nullable
+            # reader when the type has a null representation on the wire.
+            kafka_type = get_schema_field_type(field)
+            optional = is_optional(field)
+            if is_tagged_field and optional:
+                try:
+                    inner_type_reader = get_reader(kafka_type, flexible, optional=True)
+                except NotImplementedError:
+                    inner_type_reader = get_reader(kafka_type, flexible, optional=False)
+            else:
+                inner_type_reader = get_reader(
+                    kafka_type=kafka_type,
+                    flexible=flexible,
+                    optional=optional,
+                )
         case PrimitiveTupleField():
             inner_type_reader = get_reader(
                 kafka_type=get_schema_field_type(field),
